@@ -261,7 +261,10 @@ class IntegratorScipyDop853(Integrator):
         return self.get_state(copy)
 
     def mcstep(self, t, copy=True):
-        if self._ode_solver.t <= t:
+        if self._ode_solver.t == t:
+            # Exact same `t` as the last call, nothing to do.
+            pass
+        elif self._ode_solver.t <= t:
             # Scipy's DOP853 does not have a step function.
             # It has a safe step length, but can be 0 if unknown.
             dt = self._ode_solver._integrator.work[6]
